@@ -238,7 +238,7 @@ CLAIMED = {
          "value when the loop exits (terminal_complete), derivations are functional, and the scheduled set equals a schedule-free demand "
          "closure DemS. Corollary C05_prompt_equals_file. Tie: model vs real solver traces under natural and random ranks; monitor "
          "permutes attempt order (sort_keys substituted), request order, input-file order and the file/prompt split on generated and "
-         "real forms, comparing verdict, values, forms and all three diagnostics as sets.",
+         "real forms, comparing verdict, values, forms and all three diagnostics as sets. Layer B: C05_line_outcome_ignores_store_layout (StoreMono.line_value_ext, mutual induction over the whole line interpreter) - the outcome of a line, including the name it waits for, depends only on the bindings of the stores, not on their order, shadowed duplicates or the order of the participating forms.",
     design_ref='DESIGN.md §3.2-3.4, §4 C05',
     note="Equality of the three diagnostic sets and of the forms set is decided by the monitor (theorem covers scheduled set, values, verdict); "
          "runs that abort are outside the theorem (which abort is reported first is order dependent); configparser parsing not modelled. "
